@@ -86,6 +86,22 @@ def _static_metric(hbf, tag):
 # per-font context (original font, HarfBuzz handles, budget model)
 
 
+VARMARKS_FEA = {
+    "ttx:varLib/data/master_ttx_varfont_ttf/SparseMasters-VF.ttx": """
+markClass dotabovecomb <anchor (wght=350:150 wght=625:190) (wght=350:500 wght=625:560)> @TOP;
+feature mark {
+  pos base e <anchor (wght=350:250 wght=450:300 wght=625:280) (wght=350:480 wght=625:530)> mark @TOP;
+  pos base a <anchor (wght=350:240 wght=625:260) (wght=350:470 wght=450:500 wght=625:455)> mark @TOP;
+  pos base s <anchor (wght=350:230 wght=625:231) 500> mark @TOP;
+} mark;
+feature kern {
+  pos e a (wght=350:-20 wght=625:-55);
+  pos a s (wght=350:10 wght=450:-13 wght=625:31);
+} kern;
+""",
+}
+
+
 class Excluded(Exception):
     pass
 
@@ -105,10 +121,17 @@ class FontCtx:
             # advance source.  noavar: user space maps linearly onto the design space (asymmetric
             # two-sided axes then exercise the distance-weighted renormalisation); nohvar: advances
             # come from gvar phantom points only
-            drop = {"noavar": ["avar"], "nohvar": ["HVAR", "VVAR"]}[variant]
+            drop = {"noavar": ["avar"], "nohvar": ["HVAR", "VVAR"], "varmarks": []}[variant]
             for t in drop:
                 if t in font:
                     del font[t]
+            if variant == "varmarks":
+                # no corpus font has variable mark anchors: give one a mark-to-base lookup with variable
+                # anchors (incl. an intermediate master) and a variable kerning pair.  Original and
+                # instance both derive from this font, so feaLib is not part of the oracle.
+                from fontTools.feaLib.builder import addOpenTypeFeaturesFromString
+
+                addOpenTypeFeaturesFromString(font, VARMARKS_FEA[base])
             buf = io.BytesIO()
             font.save(buf)
             data = buf.getvalue()
@@ -543,6 +566,7 @@ def jobs(tier, seed):
             fids.append(e["id"] + "@noavar")
         if {"glyf", "gvar", "HVAR"} <= t:
             fids.append(e["id"] + "@nohvar")
+    fids.extend(b + "@varmarks" for b in sorted(VARMARKS_FEA))
     for fid in fids:
         for c0 in range(0, nsets, chunk):
             J.append(
